@@ -40,7 +40,10 @@ variable (P : Pipe Rule Req Cfg Ex Id UId UT Core U M Dom)
 /-- the ids of a rule list are pairwise distinct -/
 def NodupIds (L : List Rule) : Prop := (L.map P.ruleId).Nodup
 
-theorem NodupIds.nodup {L : List Rule} (h : NodupIds P L) : L.Nodup := List.Nodup.of_map _ h
+theorem NodupIds.nodup {L : List Rule} (h : NodupIds P L) : L.Nodup := by
+  unfold NodupIds at h
+  rw [List.Nodup, List.pairwise_map] at h
+  exact h.imp (fun hab heq => hab (by rw [heq]))
 
 theorem NodupIds.perm {L L' : List Rule} (h : NodupIds P L) (hp : L.Perm L') : NodupIds P L' :=
   (hp.map P.ruleId).nodup_iff.mp h
@@ -240,7 +243,9 @@ theorem lookupE_pushAt {α : Type} (id id' : Id) (r : Rule) (x : α) (m : List (
       · subst h
         simp [pushAt, lookupE, hk, ih]
       · by_cases hk' : k = id'
-        · simp [pushAt, lookupE, hk, hk', h]
+        · have h' : ¬ id' = id := fun e => h e.symm
+          subst hk'
+          simp [pushAt, lookupE, h, h']
         · simp [pushAt, lookupE, hk, hk', h, ih]
 
 theorem extendE_append {α : Type} (o : Option (Rule × List α)) (a b : List (Rule × α)) :
@@ -314,7 +319,7 @@ theorem truncMap_eq_fullMap {α : Type} (ids : List Id) (hn : ids.Nodup) (hlen :
       have hk : k ∈ ids := hl (k, r, some x) (by simp) rfl
       have hle : m.length ≤ 10 := by
         have h1 : (keysOf m).length ≤ ids.length :=
-          (List.subperm_of_subset hm hsub).length_le
+          List.Nodup.length_le_of_subset hm (fun k hk => hsub k hk)
         simp only [keysOf, List.length_map] at h1
         omega
       have hrec : record m k r x = pushAt k r x m := by simp [record, hle]
@@ -422,7 +427,7 @@ theorem unitIds_keys_nodup (hW : View.WF P S) : ((unitIds P S).map (·.1)).Nodup
       | none => simp only [List.filterMap_cons, h, Option.map_none, List.map_cons]; exact ih.cons _
       | some exs =>
         simp only [List.filterMap_cons, h, Option.map_some, List.map_cons]
-        exact ih.cons₂ _
+        exact ih.cons_cons _
   exact List.Nodup.sublist hsub hW.routes
 
 /-- `map.get(id)` on an association list -/
@@ -472,30 +477,30 @@ theorem lookupA_perm {β : Type} (id : Id) (l l' : List (Id × β)) (hp : l.Perm
 /-! ### explain and impact -/
 
 /-- compare `match_traces` through the canonical projection only -/
-def ExplainOut.canon (canon : Tr → C) (o : ExplainOut Ex Core Tr U M) : ExplainOut Ex Core C U M :=
+def ExplainOut.project (canon : Tr → C) (o : ExplainOut Ex Core Tr U M) : ExplainOut Ex Core C U M :=
   ⟨o.ex, o.core, canon o.matchTraces, o.redirectionLoop⟩
 
-def Impact.canon (canon : Tr → C) : Impact Ex Core Tr U M → Impact Ex Core C U M
+def Impact.project (canon : Tr → C) : Impact Ex Core Tr U M → Impact Ex Core C U M
   | .err e msg => .err e msg
   | .ok e core tr lp => .ok e core (canon tr) lp
 
 theorem explain_ext (hI : PermInv P) (hE : Equiv canon S S') (hW : View.WF P S) (maxHops : Nat)
     (dom : Dom) (e : Ex) :
-    (explain P S maxHops dom e).map (ExplainOut.canon canon) =
-      (explain P S' maxHops dom e).map (ExplainOut.canon canon) := by
+    (explain P S maxHops dom e).map (ExplainOut.project canon) =
+      (explain P S' maxHops dom e).map (ExplainOut.project canon) := by
   unfold explain
   simp only [← hE.config, loop_ext hI hE hW]
   cases P.fromExample S.config e with
   | error _ => rfl
   | ok q =>
-    simp only [hI.evalExplain _ _ q e (hE.matchReq q) (hW.matched q), Except.map, ExplainOut.canon,
+    simp only [hI.evalExplain _ _ q e (hE.matchReq q) (hW.matched q), Except.map, ExplainOut.project,
       hE.trace q]
 
 theorem computeImpacts_ext {T T' : View Rule Req Cfg Tr} (hI : PermInv P) (hE : Equiv canon S S')
     (hW : View.WF P S) (hT : ∀ q, canon (T.trace q) = canon (T'.trace q)) (examples : Option (List Ex))
     (withLoop : Bool) (maxHops : Nat) (dom : Dom) :
-    (computeImpacts P S T examples withLoop maxHops dom).map (Impact.canon canon) =
-      (computeImpacts P S' T' examples withLoop maxHops dom).map (Impact.canon canon) := by
+    (computeImpacts P S T examples withLoop maxHops dom).map (Impact.project canon) =
+      (computeImpacts P S' T' examples withLoop maxHops dom).map (Impact.project canon) := by
   unfold computeImpacts
   cases examples with
   | none => rfl
@@ -507,7 +512,7 @@ theorem computeImpacts_ext {T T' : View Rule Req Cfg Tr} (hI : PermInv P) (hE : 
     cases P.fromExample S.config e with
     | error _ => rfl
     | ok q =>
-      simp only [hI.evalExplain _ _ q e (hE.matchReq q) (hW.matched q), Impact.canon, hT q]
+      simp only [hI.evalExplain _ _ q e (hE.matchReq q) (hW.matched q), Impact.project, hT q]
 
 end
 
@@ -618,4 +623,98 @@ theorem repr_projectRouter (base : St) (c : Cfg) (B : List Rule) (D : ChangeSet 
 
 end
 
+end Rio.Analysis
+
+/-! ### assembly: test-examples -/
+
+namespace Rio.Analysis
+open Rio.Loop
+
+section
+variable {Rule Req Cfg Tr C Ex Id UId UT Core U M Dom : Type}
+variable [DecidableEq Id] [DecidableEq U] [DecidableEq M]
+variable {P : Pipe Rule Req Cfg Ex Id UId UT Core U M Dom}
+variable {canon : Tr → C} {S S' : View Rule Req Cfg Tr}
+
+theorem testExamples_counts_ext (hI : PermInv P) (hE : Equiv canon S S') (hW : View.WF P S)
+    (maxHops : Nat) (dom : Dom) :
+    (testExamples P S maxHops dom).exampleCount = (testExamples P S' maxHops dom).exampleCount ∧
+    (testExamples P S maxHops dom).failureCount = (testExamples P S' maxHops dom).failureCount ∧
+    (testExamples P S maxHops dom).errorCount = (testExamples P S' maxHops dom).errorCount := by
+  rw [testExamples_eq_fold, testExamples_eq_fold]
+  obtain ⟨a1, a2, a3⟩ := fold_counts (P := P) (events P S maxHops dom) TestOut.init
+  obtain ⟨b1, b2, b3⟩ := fold_counts (P := P) (events P S' maxHops dom) TestOut.init
+  have hp := events_perm hI hE hW maxHops dom
+  rw [a1, a2, a3, b1, b2, b3, hp.countP_eq, hp.countP_eq, hp.countP_eq]
+  exact ⟨rfl, rfl, rfl⟩
+
+/-- at most ten rules have a failed example -/
+def FailuresBounded (P : Pipe Rule Req Cfg Ex Id UId UT Core U M Dom) (S : View Rule Req Cfg Tr)
+    (maxHops : Nat) (dom : Dom) : Prop :=
+  ∃ ids : List Id, ids.Nodup ∧ ids.length ≤ 10 ∧
+    ∀ ev ∈ events P S maxHops dom, (failureOf P ev).2.2.isSome → P.ruleId ev.1 ∈ ids
+
+/-- at most ten rules have an example whose request cannot be built -/
+def ErrorsBounded (P : Pipe Rule Req Cfg Ex Id UId UT Core U M Dom) (S : View Rule Req Cfg Tr)
+    (maxHops : Nat) (dom : Dom) : Prop :=
+  ∃ ids : List Id, ids.Nodup ∧ ids.length ≤ 10 ∧
+    ∀ ev ∈ events P S maxHops dom, (errorOf P ev).2.2.isSome → P.ruleId ev.1 ∈ ids
+
+theorem failures_lookup (maxHops : Nat) (dom : Dom) (hb : FailuresBounded P S maxHops dom) (id : Id) :
+    lookupE id (testExamples P S maxHops dom).firstTenFailures =
+      extendE none (itemsFor id ((events P S maxHops dom).map (failureOf P))) := by
+  obtain ⟨ids, hn, hlen, hall⟩ := hb
+  rw [testExamples_eq_fold, (fold_maps (P := P) (events P S maxHops dom) TestOut.init).1]
+  rw [truncMap_eq_fullMap ids hn hlen _ (by
+      intro t ht hs
+      simp only [List.mem_map] at ht
+      obtain ⟨ev, hev, rfl⟩ := ht
+      exact hall ev hev hs) _ (by simp [TestOut.init, keysOf]) (by simp [TestOut.init, keysOf]),
+    lookupE_fullMap]
+  simp [TestOut.init, lookupE]
+
+theorem errors_lookup (maxHops : Nat) (dom : Dom) (hb : ErrorsBounded P S maxHops dom) (id : Id) :
+    lookupE id (testExamples P S maxHops dom).firstTenErrors =
+      extendE none (itemsFor id ((events P S maxHops dom).map (errorOf P))) := by
+  obtain ⟨ids, hn, hlen, hall⟩ := hb
+  rw [testExamples_eq_fold, (fold_maps (P := P) (events P S maxHops dom) TestOut.init).2]
+  rw [truncMap_eq_fullMap ids hn hlen _ (by
+      intro t ht hs
+      simp only [List.mem_map] at ht
+      obtain ⟨ev, hev, rfl⟩ := ht
+      exact hall ev hev hs) _ (by simp [TestOut.init, keysOf]) (by simp [TestOut.init, keysOf]),
+    lookupE_fullMap]
+  simp [TestOut.init, lookupE]
+
+theorem failuresBounded_ext (hI : PermInv P) (hE : Equiv canon S S') (hW : View.WF P S) (maxHops : Nat)
+    (dom : Dom) (hb : FailuresBounded P S maxHops dom) : FailuresBounded P S' maxHops dom := by
+  obtain ⟨ids, hn, hlen, hall⟩ := hb
+  exact ⟨ids, hn, hlen, fun ev hev => hall ev ((events_perm hI hE hW maxHops dom).mem_iff.mpr hev)⟩
+
+theorem errorsBounded_ext (hI : PermInv P) (hE : Equiv canon S S') (hW : View.WF P S) (maxHops : Nat)
+    (dom : Dom) (hb : ErrorsBounded P S maxHops dom) : ErrorsBounded P S' maxHops dom := by
+  obtain ⟨ids, hn, hlen, hall⟩ := hb
+  exact ⟨ids, hn, hlen, fun ev hev => hall ev ((events_perm hI hE hW maxHops dom).mem_iff.mpr hev)⟩
+
+theorem testExamples_failures_ext (hI : PermInv P) (hE : Equiv canon S S') (hW : View.WF P S)
+    (maxHops : Nat) (dom : Dom) (hb : FailuresBounded P S maxHops dom) (id : Id) :
+    lookupE id (testExamples P S maxHops dom).firstTenFailures =
+      lookupE id (testExamples P S' maxHops dom).firstTenFailures := by
+  rw [failures_lookup maxHops dom hb, failures_lookup maxHops dom (failuresBounded_ext hI hE hW maxHops dom hb)]
+  have := itemsFor_events_ext (fun ev : Event Rule Ex Id UId U M =>
+    (match ev.2.2 with | .failed f => some f | _ => none)) hI hE hW maxHops dom id
+  unfold failureOf
+  rw [this]
+
+theorem testExamples_errors_ext (hI : PermInv P) (hE : Equiv canon S S') (hW : View.WF P S)
+    (maxHops : Nat) (dom : Dom) (hb : ErrorsBounded P S maxHops dom) (id : Id) :
+    lookupE id (testExamples P S maxHops dom).firstTenErrors =
+      lookupE id (testExamples P S' maxHops dom).firstTenErrors := by
+  rw [errors_lookup maxHops dom hb, errors_lookup maxHops dom (errorsBounded_ext hI hE hW maxHops dom hb)]
+  have := itemsFor_events_ext (fun ev : Event Rule Ex Id UId U M =>
+    (match ev.2.2 with | .errored msg => some (ev.2.1, msg) | _ => none)) hI hE hW maxHops dom id
+  unfold errorOf
+  rw [this]
+
+end
 end Rio.Analysis
